@@ -77,7 +77,14 @@ def gen_cases(tier, rng):
                 i = r.below(len(evs))
                 d = evs[i]
                 k = r.below(4)
-                if ver == 1 and k < 3:
+                if ver == 1 and k < 3 and j % 2 == 1:
+                    # an index in the name of a per-player variable, for every kind of per-player variable
+                    kindn = [b"team", b"player", b"playername", b"ping", b"face", b"skin", b"mesh", b"frags", b"ngsecret", b"deaths", b"health"][(g["seed"] + j) % 11]
+                    big = r.choice([b"300000", b"1000000", b"4000000", b"65536", b"4294967295"])
+                    ins = b"\\" + kindn + b"_" + big + b"\\1"
+                    cut = d.find(b"\\final\\")
+                    d = (d[:cut] + ins + d[cut:]) if cut >= 0 and r.chance(1, 2) else d + ins
+                elif ver == 1 and k < 3:
                     big = r.choice([b"4294967295", b"4000000000", b"18446744073709551615", b"99999999999999999999", b"65536"])
                     what = r.choice([b"\\maxplayers\\", b"\\numplayers\\", b"\\player_", b"\\queryid\\"])
                     d = d + what + big + (b"\\x" if what == b"\\player_" else b"")
